@@ -1,6 +1,7 @@
 // Package exact is the exact reference model shared by the C04 and C06 harnesses:
 // small integer matrices, fraction-free (Bareiss) determinant and adjugate in int64
-// (exact on the lattices used: n<=4, |entries|<=2, so |det| <= 4!*2^4), an independent
+// (exact on the lattices used: n<=6, |entries|<=2: every minor is bounded by Hadamard's
+// inequality, (sqrt(6)*2)^6 < 2^14, and every Bareiss intermediate is a product of two minors), an independent
 // math/big.Rat Gauss-Jordan inverse used as cross-check and for rational solutions,
 // Sylvester's criterion, structural singularity, exact partial-pivot simulation.
 // It does not import the library under test.
